@@ -2370,6 +2370,249 @@ example : ∃ rows, run world Quirks.keyed schema dom anyDedup = some rows ∧
     ∀ r, r ∈ rows ↔ ∃ x ∈ dom, r = [x] ∧ matchesPat world anyDedup x = true :=
   C11_full world schema dom 4 false _ (by decide) (by decide) (by decide) (by decide) (by decide) (by decide)
 
+/-! ## the code after the fix commits for F-C11-3 … F-C11-6 (`Quirks.now`)
+
+The fixes change `desugar` only on the shapes of those findings: outside the six trigger shapes `desugar Quirks.now`
+builds the very query `desugar Quirks.today` builds (given a schema in which a subclass lists the fields of its
+superclasses), and evaluation does not look at the changed flags. Hence `C11_equiv_partial` and `C11_full` speak about
+the code as it is now (`model=` of the driver is `run … Quirks.now`). -/
+
+/-- a subclass has every field of its superclasses, with the same description -/
+def schemaInheritsB (s : Schema) (sub : List (Nat × Nat)) : Bool :=
+  sub.all fun cd => s.all fun e => e.1.1 != cd.2 || s.lookup (cd.1, e.1.2) == some e.2
+
+theorem inherits_of_B {s : Schema} {sub : List (Nat × Nat)} (h : schemaInheritsB s sub = true) {c d : Nat}
+    (hcd : sub.contains (c, d) = true) {n : AttrName} {fi : FieldInfo} (hl : s.lookup (d, n) = some fi) :
+    s.lookup (c, n) = some fi := by
+  simp only [schemaInheritsB, List.all_eq_true] at h
+  have hm : (c, d) ∈ sub := by simpa using hcd
+  have := h (c, d) hm ((d, n), fi) (mem_of_lookup hl)
+  simpa using this
+
+theorem existsFilter_congr (w : World) {Q Q' : Quirks} (h : Q.existsByValue = Q'.existsByValue) (q : MTerm) :
+    ∀ (rs : List (Env × Bool)) (seen : List (Val × List (Option Val))),
+      existsFilter w Q q rs seen = existsFilter w Q' q rs seen := by
+  intro rs
+  induction rs with
+  | nil => intro seen; rfl
+  | cons r rs ih =>
+    intro seen
+    obtain ⟨e, t⟩ := r
+    simp only [existsFilter, h, ih]
+
+theorem evalCond_congr (w : World) {Q Q' : Quirks} (h : Q.existsByValue = Q'.existsByValue) (dom : List Val) :
+    ∀ (c : Cond) (env : Env), evalCond w Q dom c env = evalCond w Q' dom c env := by
+  intro c
+  induction c with
+  | eq _ _ => intro env; rfl
+  | litIn _ _ => intro env; rfl
+  | inLit _ _ => intro env; rfl
+  | hasType _ _ => intro env; rfl
+  | ex q c ih => intro env; simp only [evalCond, ih, existsFilter_congr w h]
+  | and l r ihl ihr => intro env; simp only [evalCond, ihl, ihr]
+
+theorem evalQuery_congr (w : World) {Q Q' : Quirks} (h1 : Q.existsByValue = Q'.existsByValue)
+    (h2 : Q.selIndependent = Q'.selIndependent) (dom : List Val) (q : MQuery) :
+    evalQuery w Q dom q = evalQuery w Q' dom q := by
+  simp only [evalQuery, h2, evalCond_congr w h1]
+
+/-- a quirk setting in which the four fixes are in (whatever `Exists` and the selection do) -/
+def Quirks.repaired (Q : Quirks) : Prop :=
+  Q.relOnlyIterable = false ∧ Q.declaredOwner = false ∧ Q.lazyFlatten = false ∧ Q.falsyValueIsNoType = false
+
+theorem inferCond_now (Q : Quirks) (hQ : Q.repaired) (fi : FieldInfo) (hrc : fi.rel = fi.coll) (a : MTerm) (l : Val)
+    (iv un ex : Bool) :
+    inferCond Q fi a l iv un ex = inferCond Quirks.today fi a l iv un ex := by
+  simp [inferCond, FieldInfo.iter, hQ.1, Quirks.today, hrc]
+
+mutual
+theorem resolveAssigns_now (Q : Quirks) (hQ : Q.repaired) (s : Schema) (sub : List (Nat × Nat))
+    (hinh : schemaInheritsB s sub = true) :
+    (as : Assigns) → ∀ (owner owner' : Option Nat) (t : MTerm),
+      (∀ n fi, fieldOf s owner n = some fi → fieldOf s owner' n = some fi) →
+      as.wf s sub owner = true →
+      as.trigBuiltinColl s owner = false →
+      as.trigLazyFlatten s sub owner t = false →
+      as.trigFalsyValue = false →
+      resolveAssigns Q s sub owner' t as = resolveAssigns Quirks.today s sub owner t as
+  | .nil, _, _, _, _, _, _, _, _ => by simp [resolveAssigns]
+  | .cons n av rest, owner, owner', t, hown, hwf, hbc, hlf, hfv => by
+    cases hf : fieldOf s owner n with
+    | none => simp [Assigns.wf, hf] at hwf
+    | some fi =>
+      simp only [Assigns.wf, hf, Bool.and_eq_true, Bool.not_eq_true', Bool.or_eq_true] at hwf
+      obtain ⟨⟨_, hrc, hwfv⟩, hwfr⟩ := hwf
+      simp only [Assigns.trigBuiltinColl, hf, Bool.or_eq_false_iff, Bool.and_eq_false_imp,
+        Bool.not_eq_eq_eq_not, Bool.not_false] at hbc
+      obtain ⟨⟨hcr, hbcv⟩, hbcr⟩ := hbc
+      simp only [Assigns.trigLazyFlatten, hf, Bool.or_eq_false_iff] at hlf
+      simp only [Assigns.trigFalsyValue, Bool.or_eq_false_iff] at hfv
+      have hrel_coll : fi.rel = fi.coll := by
+        cases hr : fi.rel <;> cases hc : fi.coll <;> simp_all
+      rw [resolveAssigns, resolveAssigns]
+      simp only [hf, hown n fi hf]
+      rw [resolveVal_now Q hQ s sub hinh av fi (.attr t n) hrel_coll hwfv hbcv hlf.1 hfv.1,
+        resolveAssigns_now Q hQ s sub hinh rest owner owner' t hown hwfr hbcr hlf.2 hfv.2]
+theorem resolveVal_now (Q : Quirks) (hQ : Q.repaired) (s : Schema) (sub : List (Nat × Nat))
+    (hinh : schemaInheritsB s sub = true) :
+    (av : AVal) → ∀ (fi : FieldInfo) (a : MTerm),
+      fi.rel = fi.coll →
+      av.wf s sub fi = true →
+      av.trigBuiltinColl s fi = false →
+      av.trigLazyFlatten s sub fi a = false →
+      av.trigFalsyValue = false →
+      resolveVal Q s sub fi a av = resolveVal Quirks.today s sub fi a av
+  | .lit l, fi, a, hrc, _, _, _, _ => by
+    simp only [resolveVal, inferCond_now Q hQ fi hrc]
+  | .coll l ex un sel, fi, a, hrc, _, _, _, hfv => by
+    simp only [AVal.trigFalsyValue, Bool.not_eq_eq_eq_not, Bool.not_false] at hfv
+    simp only [resolveVal, hfv, Bool.not_true, Bool.and_false, Bool.false_eq_true, if_false,
+      inferCond_now Q hQ fi hrc]
+  | .nested (.mk cls sel as), fi, a, hrc, hwf, hbc, hlf, hfv => by
+    simp only [AVal.wf, Bool.and_eq_true] at hwf
+    obtain ⟨⟨hty, hcompat⟩, hwfa⟩ := hwf
+    obtain ⟨d, hd⟩ := Option.isSome_iff_exists.1 hty
+    simp only [AVal.trigBuiltinColl, Bool.or_eq_false_iff] at hbc
+    simp only [AVal.trigLazyFlatten, Bool.or_eq_false_iff] at hlf
+    obtain ⟨hlf1, hlfa⟩ := hlf
+    simp only [AVal.trigFalsyValue] at hfv
+    -- the nested node is the same: a relationship collection is flattened in both (its conditions are not empty)
+    have hnode : nestedNode Q sub fi a cls as = nestedNode Quirks.today sub fi a cls as := by
+      rw [nestedNode_today]
+      cases hr : fi.rel with
+      | false =>
+        simp [nestedNode, FieldInfo.iter, hQ.1, hQ.2.2.1, isFlattened, hr, ← hrc]
+      | true =>
+        simp only [hr, Bool.true_and] at hlf1
+        have := isFlattened_of_conds (a := a) (sel := sel) hr hlf1
+        simp [nestedNode, FieldInfo.iter, hQ.1, hQ.2.2.1, this, ← hrc, hr]
+    -- the kwargs are looked up on the matched subclass, which has the fields of the declared type
+    have hown : ∀ n fi', fieldOf s fi.type n = some fi' →
+        fieldOf s (if typeFilterNeeded sub fi.type cls then cls else fi.type) n = some fi' := by
+      intro n fi' h
+      cases hneed : typeFilterNeeded sub fi.type cls with
+      | false => simpa using h
+      | true =>
+        cases cls with
+        | none => simp [typeFilterNeeded, hd] at hneed
+        | some c =>
+          simp only [hd, typeFilterNeeded, Bool.and_eq_true] at hneed
+          simp only [if_true, fieldOf, hd] at h ⊢
+          exact inherits_of_B hinh hneed.2 h
+    have ih := resolveAssigns_now Q hQ s sub hinh as fi.type
+      (if typeFilterNeeded sub fi.type cls then cls else fi.type)
+      (nestedNode Quirks.today sub fi a cls as) hown hwfa hbc.1 hlfa hfv
+    have hcs := resolveVal_nested_today s sub fi a cls sel as
+    rw [hcs]
+    unfold resolveVal
+    have hd' : Q.declaredOwner = false := hQ.2.1
+    have hl' : Q.lazyFlatten = false := hQ.2.2.1
+    simp only [hd', hl', Bool.not_false, Bool.true_and, hnode, ih]
+    cases h1 : resolveAssigns Quirks.today s sub fi.type (nestedNode Quirks.today sub fi a cls as) as with
+    | none => rfl
+    | some p1 =>
+      obtain ⟨cs, ss⟩ := p1
+      simp only
+      -- the extra type check of an otherwise unconstrained element is not needed here: without a type filter
+      -- `cs` is not empty (the shape of F-C11-5 is excluded)
+      have hcsne : filtCls sub fi cls = none → (fi.iter Q && cs.isEmpty) = false := by
+        intro hfc
+        cases hr : fi.rel with
+        | false => simp [FieldInfo.iter, hQ.1, ← hrc, hr]
+        | true =>
+          simp only [hr, Bool.true_and, condsOfVal, hcs, h1, filtConds, hfc, List.nil_append] at hlf1
+          simp [hlf1]
+      clear hcs ih hown hnode hlfa hlf1 hbc hcompat
+      simp only [filtConds, filtCls] at hcsne ⊢
+      cases cls with
+      | none =>
+        cases hneed : typeFilterNeeded sub fi.type none <;> simp only [hneed, forall_const] at hcsne ⊢ <;>
+          simp [hcsne]
+      | some c =>
+        cases hneed : typeFilterNeeded sub fi.type (some c) with
+        | true => rfl
+        | false => simp only [hneed, forall_const] at hcsne ⊢; simp [hcsne]
+end
+
+theorem desugar_now (Q : Quirks) (hQ : Q.repaired) (s : Schema) (sub : List (Nat × Nat))
+    (hinh : schemaInheritsB s sub = true) (T : Nat)
+    (rootSel : Bool) (as : Assigns) (hwf : as.wf s sub (some T) = true)
+    (hbc : as.trigBuiltinColl s (some T) = false) (hlf : as.trigLazyFlatten s sub (some T) .root = false)
+    (hfv : as.trigFalsyValue = false) :
+    desugar Q s sub (.mk (some T) rootSel as) = desugar Quirks.today s sub (.mk (some T) rootSel as) := by
+  simp only [desugar, resolveAssigns_now Q hQ s sub hinh as (some T) (some T) .root (fun _ _ h => h) hwf hbc hlf hfv]
+
+/-- **C11_equiv_partial_now.** `C11_equiv_partial` for the code after the fix commits (`Quirks.now`, the driver's
+`model=`): same hypotheses (the six shapes stay outside the proved fragment; on the repaired shapes the equivalence
+is checked by the correspondence only), plus the schema lists inherited fields for subclasses. -/
+theorem C11_equiv_partial_now (w : World) (s : Schema) (dom : List Val) (T : Nat) (rootSel : Bool) (as : Assigns)
+    (hinh : schemaInheritsB s w.subclass = true)
+    (hconf : conformsB w s = true)
+    (hwf : (Pat.mk (some T) rootSel as).wf s w.subclass = true)
+    (hclean : triggers w s (.mk (some T) rootSel as) = [])
+    (hnosel : as.nSel = 0) :
+    ∃ rows, run w Quirks.now s dom (.mk (some T) rootSel as) = some rows ∧
+      ∀ r, r ∈ rows ↔ ∃ x ∈ dom, r = [x] ∧ matchesPat w (.mk (some T) rootSel as) x = true := by
+  have hclean' := hclean
+  simp only [triggers, List.append_eq_nil_iff, ite_singleton_eq_nil] at hclean'
+  obtain ⟨⟨⟨⟨⟨_, _⟩, hbc⟩, _⟩, hlf⟩, hfv⟩ := hclean'
+  have hwf' := hwf
+  simp only [Pat.wf, Option.isSome_some, Bool.true_and] at hwf'
+  have hrun : run w Quirks.now s dom (.mk (some T) rootSel as) =
+      run w Quirks.today s dom (.mk (some T) rootSel as) := by
+    simp only [run, desugar_now Quirks.now ⟨rfl, rfl, rfl, rfl⟩ s w.subclass hinh T rootSel as hwf' hbc hlf hfv]
+    congr 1
+    funext q
+    exact evalQuery_congr w (Q := Quirks.now) (Q' := Quirks.today) rfl rfl dom q
+  rw [hrun]
+  exact C11_equiv_partial w s dom T rootSel as hconf hwf hclean hnosel
+
+/-- the code after the fix commits with, in addition, `Exists` keyed on the matched element (F-C11-1 repaired too) -/
+def Quirks.nowKeyed : Quirks := { Quirks.now with existsByValue := false }
+
+/-- **C11_full_now.** `C11_full` for the code after the fix commits: with `Exists` keyed on the matched element the
+equivalence holds for every well-formed pattern outside the shapes F-C11-3/5/6, existential matches included. -/
+theorem C11_full_now (w : World) (s : Schema) (dom : List Val) (T : Nat) (rootSel : Bool) (as : Assigns)
+    (hinh : schemaInheritsB s w.subclass = true)
+    (hconf : conformsB w s = true)
+    (hwf : (Pat.mk (some T) rootSel as).wf s w.subclass = true)
+    (hbc : (Pat.mk (some T) rootSel as).trigBuiltinColl s = false)
+    (hlf : (Pat.mk (some T) rootSel as).trigLazyFlatten s w.subclass = false)
+    (hfv : (Pat.mk (some T) rootSel as).trigFalsyValue = false)
+    (hnosel : as.nSel = 0) :
+    ∃ rows, run w Quirks.nowKeyed s dom (.mk (some T) rootSel as) = some rows ∧
+      ∀ r, r ∈ rows ↔ ∃ x ∈ dom, r = [x] ∧ matchesPat w (.mk (some T) rootSel as) x = true := by
+  have hwf' := hwf
+  simp only [Pat.wf, Option.isSome_some, Bool.true_and] at hwf'
+  have hrun : run w Quirks.nowKeyed s dom (.mk (some T) rootSel as) =
+      run w Quirks.keyed s dom (.mk (some T) rootSel as) := by
+    simp only [run, desugar_now Quirks.nowKeyed ⟨rfl, rfl, rfl, rfl⟩ s w.subclass hinh T rootSel as hwf'
+      (by simpa [Pat.trigBuiltinColl] using hbc) (by simpa [Pat.trigLazyFlatten] using hlf)
+      (by simpa [Pat.trigFalsyValue] using hfv), ← desugar_keyed]
+    congr 1
+    funext q
+    exact evalQuery_congr w (Q := Quirks.nowKeyed) (Q' := Quirks.keyed) rfl rfl dom q
+  rw [hrun]
+  exact C11_full w s dom T rootSel as hconf hwf hbc hlf hfv hnosel
+
+/-! the witnesses of the repaired findings F-C11-3 … F-C11-6: the model of the code after the fixes meets the
+specification on each of them (tests by `decide`), and `C11_equiv_partial_now` is not vacuous -/
+open Witness in
+example : schemaInheritsB schema world.subclass = true ∧
+    run world Quirks.now schema dom builtinCollection = some (specRows world dom builtinCollection) ∧
+    run world Quirks.now schema dom subclassAttribute = some (specRows world dom subclassAttribute) ∧
+    run world Quirks.now schema dom lazyFlatten = some (specRows world dom lazyFlatten) ∧
+    run world Quirks.now schema dom falsyValue = some (specRows world dom falsyValue) ∧
+    openTriggers world schema builtinCollection = [] ∧ openTriggers world schema subclassAttribute = [] ∧
+    openTriggers world schema lazyFlatten = [] ∧ openTriggers world schema falsyValue = [] ∧
+    openTriggers world schema anyDedup = ["F-C11-1"] ∧ openTriggers world schema crossProduct = ["F-C11-2"] := by
+  decide
+
+open Witness in
+example : ∃ rows, run world Quirks.now schema dom inScope = some rows ∧
+    ∀ r, r ∈ rows ↔ ∃ x ∈ dom, r = [x] ∧ matchesPat world inScope x = true :=
+  C11_equiv_partial_now world schema dom 4 false _ (by decide) (by decide) (by decide) (by decide) (by decide)
+
 /-! ## re-evaluation of one query object over changing data -/
 
 /-- **C11_history_independent.** The answers of the successive evaluations of one query object are the answers of
